@@ -2,6 +2,7 @@
 import VC2.Model.Picture
 import VC2.Model.EncoderSeq
 import VC2.Model.PictureGen
+import VC2.Model.PictureShape
 namespace VC2.Model.Picture
 
 /-- `dc E|D w h v…` -/
@@ -34,6 +35,44 @@ def handlePg (ws : List String) : String :=
       | some r => if r.isEmpty then "-" else " ".intercalate ((VC2.Model.PictureGen.number r).map (fun p => s!"{p.1}:{p.2}"))
       | none => "ERROR"
     | none => "bad-op"
+  | _ => "bad-op"
+
+/-- `ps <generator> <num_frames> width height cdf interlaced fields tff par_numer par_denom luma_excursion color_diff_excursion`
+    → `ERROR`, or `k:RxC/RxC/RxC …` (number and the three component shapes of every picture) followed by
+    ` | <largest luma sample> <largest colour-difference sample>` the generator can produce
+    (piped generators: the clip bound; mid_gray: its value; white_noise: the draw's upper end) -/
+def handlePs (ws : List String) : String :=
+  open VC2.Model.PictureShape in
+  match ws with
+  | g :: rest =>
+    match rest.mapM (·.toNat?) with
+    | some [n, w, h, cdf, il, fl, tff, pn, pd, le, ce] =>
+      let f : Fmt := { width := w, height := h, cdf := cdf, interlaced := il == 1, fields := fl == 1, tff := tff == 1, parNumer := pn, parDenom := pd }
+      let gen : Option Generator := match g with
+        | "moving_sprite" => some (.movingSprite n)
+        | "static_sprite" => some .staticSprite
+        | "linear_ramps" => some .linearRamps
+        | "mid_gray" => some .midGray
+        | "white_noise" => some (.whiteNoise n)
+        | _ => none
+      match gen with
+      | none => "bad-op"
+      | some gen =>
+        let dy := depthOf le
+        let dc := depthOf ce
+        let tops : Option (Int × Int) := match gen with
+          | .midGray => (midGrayValue dy).bind (fun a => (midGrayValue dc).map (fun b => (a, b)))
+          | .whiteNoise _ => some (noiseBound dy - 1, noiseBound dc - 1)
+          | _ => some (VC2.Model.PictureGen.clipToDepth dy.toNat (10 ^ 30), VC2.Model.PictureGen.clipToDepth dc.toNat (10 ^ 30))
+        match generate gen f, tops with
+        | some pics, some (a, b) =>
+          -- (a component without rows is an empty list in the picture dictionary: its column count is not observable)
+          let sh (s : Shape) := if s.1 = 0 then "0x*" else s!"{s.1}x{s.2}"
+          let body := (List.zip (picNumbers gen f pics.length) pics).map (fun (k, p) => s!"{k}:{sh p.y}/{sh p.c1}/{sh p.c2}")
+          let noDraw := body.isEmpty && (match gen with | .whiteNoise _ => true | _ => false)
+          (if body.isEmpty then "-" else " ".intercalate body) ++ (if noDraw then " | None None" else s!" | {a} {b}")
+        | _, _ => "ERROR"
+    | _ => "bad-op"
   | _ => "bad-op"
 
 end VC2.Model.Picture
